@@ -41,7 +41,7 @@ def _compare(ctx, case, k, fallback):
         ctx.note('kept', 'chunks_kept %r, transcription %r' % (kept, case['chunksKept']))
         for seed in range(2):
             out = call(sel, case['nreq'], case['req'], case['useChunks'], case['subset'], seed + k, variant=k)
-            fallback.append(dict(times=case['times'], clu=case['clu'], bounds=case['bounds'], nkept=case['nkept'],
+            fallback.append(dict(kind='call', times=case['times'], clu=case['clu'], bounds=case['bounds'], nkept=case['nkept'],
                                  nreq=case['nreq'], req=case['req'], useChunks=case['useChunks'],
                                  subset=case['subset'] if case['subset'] else [NONE], chunksKept=kept, result=out))
         return
@@ -75,9 +75,44 @@ def _random_records(ctx, count):
             set(int(x) for x in rng.randint(0, n, size=int(rng.randint(0, n + 1)))))
         sel = make_selector(times, clu, bounds, nkept, [np.int64, np.float64][rid % 2])
         out = call(sel, nreq, req, use_chunks, subset, ctx.seed + rid, variant=rid)
-        recs.append(dict(id=rid, times=times, clu=clu, bounds=bounds, nkept=nkept, nreq=nreq,
+        recs.append(dict(id=rid, kind='call', times=times, clu=clu, bounds=bounds, nkept=nkept, nreq=nreq,
                          req=req, useChunks=use_chunks, subset=subset,
                          chunksKept=as_list(sel.chunks_kept), result=out))
+    return recs
+
+
+def _model_records(ctx, count, rid0):
+    """The selection made by TemplateModel.save_spikes_subset_waveforms (20 kept chunks on the reader's chunk
+    grid, n spikes per template), read back from the exported store."""
+    import shutil
+    from .. import datasets as D
+    from ..util import tmp_dir
+    rng = np.random.RandomState(ctx.seed + 177)
+    recs = []
+    with tmp_dir(ctx) as d:
+        for k in range(count):
+            shutil.rmtree(d / 'sel', ignore_errors=True)
+            ns = int(rng.randint(6, 40))
+            ds = D.random_dense(rng, ns=ns, nt=int(rng.randint(2, 5)), nc=3, nsw=3, raw=True,
+                                rate=[0.015625, 0.0078125, 1024][k % 3])      # several 600 s chunks / one chunk
+            # spread the spikes so that the recording spans many chunks (more than 20 when the rate is low)
+            ds['samples'] = np.cumsum(rng.randint(0, [9, 30, 4][k % 3], size=ns)) + 2
+            ds['raw'] = rng.randint(-50, 50, size=(int(ds['samples'][-1]) + 6, 4))
+            p = D.write_dataset(d / 'sel', ds)
+            nreq = int(rng.choice([1, 2, 5]))
+            with ctx.guard('model', dict(dataset=k)):
+                m = D.load(p)
+                try:
+                    m.save_spikes_subset_waveforms(max_n_spikes_per_template=nreq, max_n_channels=2)
+                    recs.append(dict(
+                        id=rid0 + len(recs), kind='model', times=as_list(m.spike_samples),
+                        clu=as_list(m.spike_templates), bounds=as_list(m.traces.chunk_bounds), nkept=20, nreq=nreq,
+                        req=sorted(set(as_list(m.spike_templates))), useChunks=True, subset=[NONE],
+                        result=as_list(np.load(d / 'sel' / '_phy_spikes_subset.spikes.npy'))))
+                finally:
+                    m.close()
+            if ctx.abort:
+                break
     return recs
 
 
@@ -118,6 +153,9 @@ def run(ctx):
     for r in fallback[:5000]:
         r['id'] = len(recs) + 1
         recs.append(r)
+    recs += _model_records(ctx, 60 if ctx.quick else 400, len(recs) + 1)
+    if ctx.abort:
+        return
     for chunk in [recs[a:a + 500] for a in range(0, len(recs), 500)]:
         for rid, clause in ctx.validate('Trace_Selector', 'Trace_Selector.cfg', chunk, timeout=3000):
             if clause == 'chunksKept':
@@ -126,6 +164,7 @@ def run(ctx):
             ctx.violation('trace', 'recorded selection rejected by the specification: clause %s'
                           % clause, dict(record=recs[rid - 1], clause=clause))
     ctx.sample(dict((a, recs[0][a]) for a in ('bounds', 'nkept', 'nreq', 'req', 'chunksKept', 'result')))
+    ctx.sample(recs[-1])
 
 
 def replay(ctx, doc):
